@@ -15,6 +15,8 @@ fn new_case(ty: &str, n: usize) -> Option<Box<dyn Runner>> {
         "vclock" => Box::new(Machine::<sut::vclock::VC>::new(n)),
         "orswot" => Box::new(Machine::<sut::orswot::OR>::new(n)),
         "mvreg" | "mvreg_raw" => Box::new(Machine::<sut::mvreg::MV>::new(n)),
+        "glist" => Box::new(Machine::<sut::glist::GL>::new(n)),
+        "list" => Box::new(Machine::<sut::glist::LS>::new(n)),
         "gcounter" => Box::new(Machine::<sut::lattice::GC>::new(n)),
         "pncounter" => Box::new(Machine::<sut::lattice::PN>::new(n)),
         "gset" => Box::new(Machine::<sut::lattice::GS>::new(n)),
@@ -34,6 +36,12 @@ fn pure(toks: &[&str]) -> String {
     let r = std::panic::catch_unwind(|| {
         if let Some(r) = sut::vclock::pure(f, args) {
             return Some(r);
+        }
+        if let Some(r) = sut::ident::pure(f, args) {
+            return Some(r);
+        }
+        if f.starts_with("list.") {
+            return sut::glist::pure(f, args);
         }
         None
     });
